@@ -444,6 +444,43 @@ def g7(F, rep):
             "%s:%s" % (e.file, e.line), "write_chunk_block(%s, ..); BlockChunk values constructed in expand_zlib_chunks: %s" % ([d[:120] for d in ds], rebuilt))
 
 
+_IDAT_DECISIONS = [
+    (r"^Lt\(len\(var\(png_idat_stream\)\), K12\)$", "input shorter than one chunk frame"),
+    (r"^ne\(index\(var\(png_idat_stream\), Range\{K4, K8\}\), const:.*\)$", "first chunk is not IDAT"),
+    (r"^Le\(Add\(var\(pos\), K12\)(\.0)?, len\(var\(png_idat_stream\)\)\)$", "loop: another chunk frame fits"),
+    (r"^ne\(var\(chunk_type\), const:.*\)$", "next chunk is not IDAT: end of the run"),
+    (r"^Gt\(Add\(Add\(var\(pos\), var\(chunk_len\)\)(\.0)?, K12\)(\.0)?, len\(var\(png_idat_stream\)\)\)$", "chunk runs past the input: end of the run"),
+    (r"^(Eq|Ne)\(var\(chunk_len\), K0\)$", "empty chunk: end of the run (D10)"),
+    (r"^Ne\(finalize\(var\(crc\)\), from_be_bytes\(.*\)$", "CRC mismatch"),
+    (r"^(Gt|Ge)\(var\(deflate_info_dump_level\), K\d+\)$", "logging"),
+    (r"^Lt\(len\(var\(deflate_stream\)\), K6\)$", "payload shorter than zlib header + Adler-32"),
+]
+
+
+def g8(F, rep):
+    """parse_idat accepts every run of consecutive, intact IDAT chunks (any chunking, any zlib header the deflate parser then
+    accepts): the conditions under which it stops collecting or refuses are exactly the enumerated ones.  A further test (on
+    the zlib header bytes, on chunk sizes ...) makes some PNGs silently fall back to a literal copy.  ⚠ closed world."""
+    b = F.body(P + "idat_parse::parse_idat")
+    extra = []
+    n = 0
+    for sb in sorted(b.normal_blocks()):
+        st = b.term(sb)
+        if st["k"] != "switch" or st.get("exp"):
+            continue
+        p = op_place(st["d"])
+        dd = b.single_def(p["l"]) if p is not None and not p["p"] else None
+        if dd and dd[2] == "assign" and dd[3]["k"] == "discr":
+            continue                     # match on an enum / Option (iterator plumbing)
+        d = flow.describe(b, st["d"], names=True)
+        n += 1
+        if not any(re.match(pat, d) for pat, _ in _IDAT_DECISIONS):
+            extra.append("%s at %s" % (d[:120], b.where(sb)))
+    rep.add("G8", "idat-walk-decisions-enumerated", not extra, "%s:%s" % (b.file, b.line),
+            "%d decisions, all among the %d enumerated ones" % (n, len(_IDAT_DECISIONS)) if not extra else "decisions outside the enumerated set: %s" % extra[:3])
+    rep.floor("G8", "idat-decisions", n, 6)
+
+
 def run(ctx, rep):
     F = ctx.lib
     rep.explanation = ("The recogniser is compared with the wrapper specifications (spec/wrappers.json typed in from RFC 1950/1952, APPNOTE 4.3.7, PNG): "
@@ -455,4 +492,5 @@ def run(ctx, rep):
     g2_g3(F, rep)
     g4(F, rep)
     g7(F, rep)
+    g8(F, rep)
     scan.a4_g5_for(ctx, rep, ("G5",))
